@@ -51,10 +51,23 @@ def r141(ctx, fx, cg):
         ctx.fail_closed(rid, "LspContext::perform_codegen not found")
         return
     rets = lib.return_blocks(pc)
+
+    def assigns_always(g, fld, depth=0):
+        """blocks of g that assign self.<fld>, directly or by calling a method of the context that does so on every path"""
+        bl = [bi for bi, si, s_ in lib.stmts(g) if s_["k"] == "assign" and lib.place_fields(s_["dst"])[:1] == [fld]]
+        bl += [bi for bi, t in lib.calls(g) if lib.place_fields(t["dst"])[:1] == [fld]]
+        if depth < 3:
+            for bi, t in lib.calls(g):
+                p, fr = lib.callee(t)
+                h = fx.fns.get(fr.get("rid") or fr.get("id")) if p else None
+                if h is not None and h is not g and h.d.get("impl_self") == LC and h.blocks:
+                    hb = assigns_always(h, fld, depth + 1)
+                    if hb and all(lib.must_pass(h, hb, r) for r in lib.return_blocks(h)):
+                        bl.append(bi)
+        return bl
     for fld in ("tree", "codegen", "error"):
         k = "%s|reset|%s" % (pc.path, fld)
-        blocks = [bi for bi, si, s in lib.stmts(pc) if s["k"] == "assign" and lib.place_fields(s["dst"])[:1] == [fld]]
-        blocks += [bi for bi, t in lib.calls(pc) if lib.place_fields(t["dst"])[:1] == [fld]]
+        blocks = assigns_always(pc, fld)
         # drop-and-replace of a field shows up as an assignment after a drop: take the earliest
         ctx.inst(rid, k, sample={"field": fld, "assign_blocks": sorted(set(blocks))[:4]})
         if not blocks:
@@ -405,6 +418,15 @@ def r149(ctx, fx):
                         read.add(e["n"])
     memo = sorted((written & read) - {"tree", "error", "codegen", "connection"})
     ctx.inst(rid, key, sample={"fields_read": sorted(read), "fields_updated": sorted(written), "record": memo})
+    for fld in memo:
+        others = sorted({g.path for g in fx.all_fns("mos") if g is not pub and "::tests::" not in g.path and g.blocks and not g.path.endswith("LspContext::new") and
+                         any(of == LCX and n == fld for of, n, kind, _, _ in lib.writes_of(g))})
+        k2 = "publish_diagnostics|record-written-elsewhere|%s" % fld
+        ctx.inst(rid, k2, sample={"record": fld, "other_writers": others})
+        if others:
+            ctx.finding(rid, k2, "the record of what the client was told (`%s`) is also written by %s: what it held is lost whenever that runs twice between two "
+                        "publications (a didChange with two content changes), and the diagnostics of a file that left the project in between stay at the client" % (
+                            fld, ", ".join(o.rsplit("::", 1)[-1] for o in others)), pub.where)
     if not memo:
         ctx.finding(rid, key, "publish_diagnostics keeps no record of the files it published diagnostics for (it updates no field of the context): when a file with "
                     "errors drops out of the import tree, or the entry file disappears, the client keeps that file's last diagnostics — a fresh server given the "
@@ -511,6 +533,47 @@ def r1411(ctx, fx):
         ctx.fail_closed(rid, "%d of the %d handlers with range-only answers found" % (n, len(RANGES_WITHOUT_DOCUMENT)))
 
 
+def r1412(ctx, fx):
+    rid = ctx.rule("R14.12", "a byte index behind a character is the index of the character plus *its* length: nowhere in the language server / debug adapter is a "
+                   "constant added to the result of `find` / `rfind` with a character predicate (`.rfind(|c| …).map(|pos| pos + 1)`) — the character found may be "
+                   "longer than one byte (a typographic quote in a comment), the index then lies inside it and the slice that follows panics")
+    n = 0
+    seen = {}
+    for f in sorted(fx.all_fns("mos"), key=lambda f: f.path):
+        if "::tests::" in f.path or "::testing" in f.path or f.kind == "closure" or not f.d.get("hir"):
+            continue
+        if not f.path.lstrip("<").startswith(("mos::lsp", "mos::debugger")):
+            continue
+        n += 1
+        hits = []
+        for x in lib.hwalk(f.hir["body"]):
+            if not (x.get("k") == "mcall" and x.get("name") in ("map", "map_or", "and_then") and x.get("args")):
+                continue
+            # receiver chain contains find / rfind with a predicate closure (or a non-ASCII needle)
+            finds = [y for y in lib.hwalk(x["recv"]) if y.get("k") == "mcall" and y.get("name") in ("find", "rfind") and
+                     "str" in str(y.get("path", "")) and y.get("args") and
+                     (lib.strip(y["args"][0]).get("k") == "closure" or (isinstance(lib.hlit(y["args"][0]), str) and not lib.hlit(y["args"][0]).isascii()))]
+            if not finds:
+                continue
+            c = lib.strip(x["args"][-1])
+            if c.get("k") != "closure":
+                continue
+            ps = {q["name"] for p_ in c.get("params", []) for q in lib.hwalk(p_) if q.get("k") == "bind"}
+            for b in lib.hwalk(c.get("body", {})):
+                if b.get("k") == "binary" and b.get("op") == "Add" and isinstance(lib.hlit(b["r"]) if lib.hlit(b["r"]) is not None else lib.hlit(b["l"]), int) and \
+                        (lib.hpath(b["l"]) in ps or lib.hpath(b["r"]) in ps):
+                    hits.append(b.get("ln") or x.get("ln"))
+        if not hits:
+            ctx.inst(rid, f.path, nontrivial=False)
+        for ln in hits:
+            seen[f.path] = seen.get(f.path, 0) + 1
+            k = "%s|index-plus-constant#%d" % (f.path, seen[f.path])
+            ctx.inst(rid, k, sample={"fn": f.path, "line": ln})
+            ctx.finding(rid, k, "%s adds a constant to the byte index of a character found by predicate: with a multi-byte character in front of the identifier under "
+                        "the cursor (`nop // “foo” bar`) the index is not a char boundary and the request ends the server" % f.path, "%s:%s" % (f.file, ln))
+    ctx.floor(rid, 150, "language-server / debug-adapter bodies scanned")
+
+
 def run(ctx):
     fx = ctx.facts
     cg = lib.CallGraph(fx)
@@ -519,6 +582,7 @@ def run(ctx):
     r149(ctx, fx)
     r1410(ctx, fx)
     r1411(ctx, fx)
+    r1412(ctx, fx)
     r146(ctx, fx)
     r142(ctx, fx)
     r143(ctx, fx)
